@@ -304,7 +304,7 @@ def run_cases(binary, test, cases, tag, shards=None, timeout=1500, env=None, ser
 
     def run(inp_cases, path_in, path_out, workers=None):
         write_ndjson(path_in, inp_cases)
-        e = {"VERIF_IN": path_in, "VERIF_OUT": path_out}
+        e = {"VERIF_IN": path_in, "VERIF_OUT": path_out, "TMPDIR": sub("tmp")}
         if workers:
             e["VERIF_WORKERS"] = str(workers)
         if env:
